@@ -447,6 +447,7 @@ func init() {
 		Runs: []Run{
 			{Pkg: "fasthttp", Func: "vhC41Dialer", Quick: map[string]int{"dials": 3}, Thorough: map[string]int{"dials": 4}, NoNative: true, PathCap: 1500000},
 			{Pkg: "fasthttp", Func: "vhC41Rotation", NoNative: true},
+			{Pkg: "fasthttp", Func: "vhC41ConcurrentRotation", NoNative: true},
 		},
 		Assume: []string{
 			"the real TCPDialer (slot channel, timers, context deadline, DNS cache in a modelled sync.Map) on the engine's cooperative scheduler with virtual time; (*net.Dialer).DialContext is replaced under the engine by a harness stub (//verif:stub) that counts dials in progress, yields, and then connects, refuses, or hangs until the context's deadline, as chosen per address; the Resolver is a harness fake",
